@@ -498,3 +498,121 @@ def search(index, family, seed=0, limit=400, saved=None):
     if family == "borders" and "borders" not in FAMILIES:
         FAMILIES["borders"] = make_check_borders(index.real_module("rtflite.row"))
     return _search_plain(index, family, seed=seed, limit=limit, saved=saved)
+
+
+# ---- multi-section documents (df = [..], rtf_body = [..]) ---------------------------------------------------------------------------
+def multi_configs(rtf, pl, seed=0, limit=None):
+    """Yield (description, builder) for multi-section documents: 2-3 sections with different columns, small / large nrow, footnote and
+    source as table / paragraph / absent, the four page / body border settings set to distinct styles, with and without header lists."""
+    rnd = random.Random(seed)
+    combos = list(itertools.product([2, 3], [40, 6, 3], ["none", "fn_table", "src_table", "fn_par", "both_table"], ["nested", "none_lists"]))
+    rnd.shuffle(combos)
+    count = 0
+    for nsec, nrow, notes, headers in combos:
+        desc = {"multi_section": nsec, "nrow": nrow, "notes": notes, "headers": headers}
+
+        def build(nsec=nsec, nrow=nrow, notes=notes, headers=headers):
+            dfs = [pl.DataFrame({f"s{k}c{j}": [f"s{k}r{i}c{j}" for i in range(2 + k)] for j in range(2 + (k % 2))}) for k in range(nsec)]
+            bodies = [rtf.RTFBody(border_first="dotted", border_last="thick") for _ in range(nsec)]
+            kw = {}
+            if notes in ("fn_table", "both_table"):
+                kw["rtf_footnote"] = rtf.RTFFootnote(text="fn text", as_table=True)
+            if notes == "fn_par":
+                kw["rtf_footnote"] = rtf.RTFFootnote(text="fn text", as_table=False)
+            if notes in ("src_table", "both_table"):
+                kw["rtf_source"] = rtf.RTFSource(text="src text", as_table=True)
+            if headers == "nested":
+                kw["rtf_column_header"] = [[rtf.RTFColumnHeader(text=[c.upper() for c in d.columns])] for d in dfs]
+            else:
+                kw["rtf_column_header"] = [[None] for _ in dfs]
+            return rtf.RTFDocument(df=dfs, rtf_body=bodies, rtf_page=rtf.RTFPage(nrow=nrow, border_first="triple", border_last="dashed"), **kw)
+        yield desc, build
+        count += 1
+        if limit and count >= limit:
+            return
+
+
+def _multi_rows(doc, parsed):
+    """(row, kind) for every table row read back: 'header' (upper-cased column names of a section), 'note' (footnote / source table row), 'data'."""
+    hdrs = {tuple(c.upper() for c in d.columns) for d in doc.df}
+    out = []
+    for p in parsed.pages:
+        for r in p.rows:
+            t = tuple(c.text for c in r.cells)
+            kind = "header" if t in hdrs else ("note" if t in (("fn text",), ("src text",)) else "data")
+            out.append((r, kind, t))
+    return out
+
+
+def check_multi_cells(doc, rtf_text, parsed):
+    """C02 for multi-section documents: the data rows read back are the sections' rows, section after section, in order."""
+    want = [tuple(cell_display(v) for v in row) for d in doc.df for row in d.iter_rows()]
+    got = [t for _, kind, t in _multi_rows(doc, parsed) if kind == "data"]
+    return [] if got == want else [f"data rows read back {got} != the sections' rows in order {want}"]
+
+
+def make_check_multi_borders(row_module):
+    def check(doc, rtf_text, parsed):
+        """C07 first / last clauses for multi-section documents: the first table row of the document carries rtf_page.border_first on top,
+        the last table row of the document (a footnote / source table row when rendered there) carries rtf_page.border_last at the bottom."""
+        word = lambda st: row_module.BORDER_CODES.get(st, "").lstrip("\\")
+        rows = _multi_rows(doc, parsed)
+        if not rows:
+            return []
+        page = doc.rtf_page
+        bad = []
+        first, last = rows[0][0], rows[-1][0]
+        if page.border_first and any((c.borders["t"] or ("", 0, 0))[0] != word(page.border_first) for c in first.cells):
+            bad.append(f"first table row of the document {rows[0][2]} has top edges {[c.borders['t'] for c in first.cells]}, rtf_page.border_first is {page.border_first!r}")
+        if page.border_last and any((c.borders["b"] or ("", 0, 0))[0] != word(page.border_last) for c in last.cells):
+            bad.append(f"last table row of the document {rows[-1][2]} has bottom edges {[c.borders['b'] for c in last.cells]}, rtf_page.border_last is {page.border_last!r}")
+        return bad
+    return check
+
+
+MULTI_FAMILIES = {"wellformed": check_wellformed, "edges": check_edges, "cells": check_multi_cells}
+
+
+def search_multi(index, family, seed=0, limit=60, saved=None):
+    import polars as pl
+    rtf = index.real_module("rtflite")
+    fams = dict(MULTI_FAMILIES)
+    fams["borders"] = make_check_multi_borders(index.real_module("rtflite.row"))
+    fn = fams.get(family)
+    if fn is None:
+        return {"found": False, "family": family, "tried": 0}
+    tried = 0
+    for desc, build in multi_configs(rtf, pl, seed=seed, limit=limit):
+        if saved is not None and desc != saved:
+            continue
+        tried += 1
+        try:
+            doc = build()
+            text = doc.rtf_encode()
+        except ValueError:
+            continue
+        except Exception as e:
+            if family == "wellformed":
+                return {"found": True, "input": desc, "observed": f"{type(e).__name__}: {e}", "family": family, "tried": tried}
+            continue
+        bad = fn(doc, text, parse(text))
+        if bad:
+            return {"found": True, "input": desc, "observed": bad[:4], "family": family, "tried": tried}
+    return {"found": False, "family": family, "tried": tried}
+
+
+_search_single = search
+
+
+def search(index, family, seed=0, limit=400, saved=None):
+    """Single-section family first, then the multi-section documents for the clause families that speak about them."""
+    if isinstance(saved, dict) and "multi_section" in saved:
+        return search_multi(index, family, seed=seed, saved=saved)
+    r = _search_single(index, family, seed=seed, limit=limit, saved=saved)
+    if r.get("found") or saved is not None:
+        return r
+    m = search_multi(index, family, seed=seed)
+    if m.get("found"):
+        return m
+    r["tried_multi_section"] = m.get("tried", 0)
+    return r
